@@ -149,6 +149,7 @@ class Env:
         m = re.search(r"r(\d+)$", uid)
         rec.ev(w, "prestart" if pre else "start", t=cls, uid=uid, u=int(m.group(1)) if m else 0, vt=round(loop.time(), 3),
                gets=gets, own=(node.params.get("nets", "") == w), nets=node.params.get("nets", ""),
+               pm={k: str(node.params.get(k, "")) for k in ("pool_scope", "check_mode_images")},
                scope=node.params.get("pool_scope", ""), srcw=sorted({k2[len("nets_host_"):] for k2 in node.params if k2.startswith("nets_host_")}),
                name=name, has_unknown=("UNKNOWN" in [r["status"] for r in node.results]),
                vms=node.params.get("vms", ""), vm_action=node.params.get("vm_action", ""), marker=node.params.get("verif_marker", ""))
